@@ -39,6 +39,13 @@ fn is_ws(c: u8) -> bool {
 
 /// Scan `s`; whitespace is skipped, comments are tokens.
 pub fn lex(s: &str) -> Result<Vec<Tok<'_>>, LexError> {
+    lex_opts(s, false)
+}
+
+/// `strict`: a backslash followed by white space or the end of the text is an error (it is how the
+/// preprocessor grammar sees directive-free text); otherwise it is a punctuation token (line continuation
+/// inside a kept `define).
+pub fn lex_opts(s: &str, strict: bool) -> Result<Vec<Tok<'_>>, LexError> {
     let b = s.as_bytes();
     let mut out = Vec::new();
     let mut i = 0;
@@ -99,9 +106,13 @@ pub fn lex(s: &str) -> Result<Vec<Tok<'_>>, LexError> {
                 i += 1;
             }
             if i == body {
-                return Err(LexError::LoneBackslash(start));
+                if strict {
+                    return Err(LexError::LoneBackslash(start));
+                }
+                out.push(Tok { kind: Kind::Punct, text: &s[start..i], start });
+            } else {
+                out.push(Tok { kind: Kind::EscIdent, text: &s[start..i], start });
             }
-            out.push(Tok { kind: Kind::EscIdent, text: &s[start..i], start });
         } else if c == b'`' {
             i += 1;
             if i < b.len() && is_id_start(b[i]) {
